@@ -89,7 +89,7 @@ def replay_file(ctx, path, n, initres, perms, tag, concs="", force="", workers=N
     env = {"VERIF_IN": path, "VERIF_OUT": out, "VERIF_N": n, "VERIF_INITRES": initres,
            "VERIF_PERMS": perms, "VERIF_CONCS": concs, "VERIF_FORCE": force,
            "VERIF_WORKERS": workers or max(2, min(12, vlib.NCPU - 4)),
-           "VERIF_STORMCAP": 30 if ctx.tier == "quick" else 120}
+           "VERIF_STORMCAP": 12 if ctx.tier == "quick" else 60}
     rc, text, wall = ctx.go_test("core", "./pkg/distribution/ontology", HARNESS,
                                  "^TestVerifOntologyReplay$", env=env, tag=tag, timeout=timeout)
     rows = ctx.read_ndjson(out)
